@@ -1,2 +1,99 @@
-(* Model for C09 — to be written. Executable definitions only, no proofs. *)
-From WI Require Import Lib.Base Lib.Info.
+(* C09: the mutable package-level state of the program and why it cannot influence results.
+   (1) Inventory (T1): every package-level variable of the module with its syntactic write
+       sites incl. writes through local aliases and parameters (tools/scan, regenerated into
+       gen/Scan.v on every run) must have no write site, or be classified below.
+   (2) The one classified mutation: primeFieldParamsMatch does
+           bytes.Equal(append(a.BaseX, a.BaseY...), b.Base[1:])
+       where a is a COPY of a namedPrimeCurves entry whose BaseX slice shares its backing array
+       with the table: Go's append writes BaseY into the SPARE CAPACITY of that array (in place,
+       when capacity allows).  Modelled literally with slices = (backing array, len). *)
+From WI Require Import Lib.Base.
+From Coq Require String.
+From WI Require gen.Scan.
+Open Scope N_scope.
+
+(* ---------- (1) classification of globals ---------- *)
+Inductive gstatus :=
+| GSpareCapacityOnly      (* writes only beyond len of a shared slice: see the state machine below *)
+| GInitIdempotent.        (* lazily initialised table: every initialisation writes the same values *)
+
+Definition global_class : list (string * list (string * string) * gstatus) := [
+  ("internal/crypto/elliptic.namedPrimeCurves",
+     [("internal/crypto/elliptic:primeFieldParamsMatch", "append-into")], GSpareCapacityOnly);
+  ("internal/ssh1/des.feistelBox",
+     [("internal/ssh1/des:initFeistelBox", "assign")], GInitIdempotent)
+]%string.
+
+Definition site_eqb (a b : string * string) : bool :=
+  (String.eqb (fst a) (fst b) && String.eqb (snd a) (snd b))%bool.
+
+Fixpoint sites_eqb (a b : list (string * string)) : bool :=
+  match a, b with
+  | [], [] => true
+  | x :: a', y :: b' => site_eqb x y && sites_eqb a' b'
+  | _, _ => false
+  end.
+
+Definition global_ok (g : string * bool * list (string * string)) : bool :=
+  match g with
+  | (name, _, []) => true                                  (* never written after initialisation *)
+  | (name, _, writes) =>
+      existsb (fun c => match c with (n, ws, _) => String.eqb n name && sites_eqb ws writes end) global_class
+  end.
+
+Definition globals_benign (gs : list (string * bool * list (string * string))) : bool :=
+  forallb global_ok gs.
+
+(* ---------- (2) slices with capacity and Go's append ---------- *)
+Record gslice := { backing : bytes; slen : nat }.            (* cap = length backing *)
+Definition visible (s : gslice) : bytes := take (slen s) (backing s).
+Definition gcap (s : gslice) : nat := length (backing s).
+Definition gslice_ok (s : gslice) : bool := Nat.leb (slen s) (gcap s).
+
+(* append(s, ys...) on a slice whose backing array is shared: returns the new contents of the
+   SHARED array (as seen through s) and the value of the resulting slice *)
+Definition go_append (s : gslice) (ys : bytes) : gslice * bytes :=
+  if Nat.leb (slen s + length ys) (gcap s)
+  then ({| backing := take (slen s) (backing s) ++ ys ++ drop (slen s + length ys) (backing s);
+           slen := slen s |}, visible s ++ ys)                (* in place: spare capacity overwritten *)
+  else (s, visible s ++ ys).                                  (* reallocated: shared array untouched *)
+
+Record centry := { ce_name : bytes; ce_basex : gslice; ce_basey : bytes }.
+Definition gstate := list centry.
+
+(* one uncompressed-base-point comparison against table entry k *)
+Definition match_entry (e : centry) (tail : bytes) : centry * bool :=
+  match go_append (ce_basex e) (ce_basey e) with
+  | (bx', joined) => ({| ce_name := ce_name e; ce_basex := bx'; ce_basey := ce_basey e |}, bytes_eqb joined tail)
+  end.
+
+Fixpoint update_nth {A} (k : nat) (f : A -> A) (l : list A) : list A :=
+  match k, l with
+  | _, [] => []
+  | O, x :: r => f x :: r
+  | S k', x :: r => x :: update_nth k' f r
+  end.
+
+(* inspecting one input = some sequence of requests (table entry, bytes to compare); everything
+   else in the program reads no mutable package-level data (part 1) *)
+Definition request := (nat * bytes)%type.
+
+Definition do_request (st : gstate) (r : request) : gstate * option bool :=
+  match nth_error st (fst r) with
+  | None => (st, None)
+  | Some e => let (e', b) := match_entry e (snd r) in (update_nth (fst r) (fun _ => e') st, Some b)
+  end.
+
+Fixpoint step (st : gstate) (rs : list request) : gstate * list (option bool) :=
+  match rs with
+  | [] => (st, [])
+  | r :: rest =>
+      let (st1, o) := do_request st r in
+      let (st2, os) := step st1 rest in
+      (st2, o :: os)
+  end.
+
+(* what other code can observe of the table *)
+Definition view (st : gstate) : list (bytes * bytes * bytes) :=
+  map (fun e => (ce_name e, visible (ce_basex e), ce_basey e)) st.
+Definition state_ok (st : gstate) : bool := forallb (fun e => gslice_ok (ce_basex e)) st.
